@@ -181,6 +181,11 @@ Theorem c12_config_mapping : forall shlex rfc3339 base ic created arch dord eord
 Proof. exact build_config_mirrors_full. Qed.
 Print Assumptions c12_config_mapping.
 
+(* the hypothesis holds on this tree (fix b1a922a): the full statement applies; were the copy
+   to drop VCSUrl again this line no longer compiles *)
+Example c12_config_mapping_hypothesis_holds : merge_into_copies_vcs_url = true /\ bundle_key_includes_variant = true.
+Proof. split; reflexivity. Qed.
+
 Theorem c12_config_mapping_partial : forall shlex rfc3339 base ic created arch dord eord,
   NoDup (akeys (ic_env ic)) ->
   Permutation dord (akeys default_env) ->
